@@ -42,9 +42,14 @@ func retryScenario(maxCalls int) func() {
 			}
 			o := 3
 			if k < maxCalls {
-				o = vrt.Choose(4, 0)
+				o = vrt.Choose(5, 0)
 			}
 			switch o {
+			case 4:
+				// a PLAIN error that merely wraps a fatal one further down is not "an error wrapped by
+				// FatalError": the loop must go on
+				vrt.Log("op-ret", k, "error")
+				return fmt.Sprintf("r%d", k), fmt.Errorf("layer: %w", FatalError(errPlain))
 			case 0:
 				vrt.Log("op-ret", k, "error")
 				return fmt.Sprintf("r%d", k), errPlain
@@ -117,12 +122,18 @@ func retryCalc() {
 
 // ---- LinearAttempt ------------------------------------------------------------------------------
 
+// lateDoneCtx reports cancellation through Err() but its Done channel never fires (a wrapping
+// context of the kind the repository's own example uses).
+type lateDoneCtx struct{ context.Context }
+
+func (lateDoneCtx) Done() <-chan struct{} { return nil }
+
 // attemptScenario: count in 1..3, receiver prompt / slow / absent, cancellation by a concurrent
 // thread at any point (or before the call, or never).
 func attemptScenario() {
 	count := 1 + vrt.Choose(3, 0)
 	pace := vrt.Choose(3, 0)  // 0 prompt, 1 slow (sleeps 2.5 ticks between receives), 2 absent
-	cmode := vrt.Choose(3, 0) // 0 never, 1 before the call, 2 concurrent
+	cmode := vrt.Choose(4, 0) // 0 never, 1 before the call, 2 concurrent, 3 concurrent with a context whose Done never fires
 	rate := 10 * time.Millisecond
 	vrt.Log("config", count, pace, cmode)
 	ctx, cancel := context.WithCancel(context.Background())
@@ -131,10 +142,13 @@ func attemptScenario() {
 		cancel()
 		vrt.Log("cancelled", int(vrt.Elapsed()))
 	}
+	if cmode == 3 {
+		ctx = lateDoneCtx{ctx} // cancellation is visible through Err() only
+	}
 	c := LinearAttempt(ctx, rate, count)
 	vrt.Log("returned", len(c))
 	done := make(chan struct{})
-	if cmode == 2 {
+	if cmode >= 2 {
 		go func() {
 			// the canceller may also let some virtual time pass first
 			if vrt.Choose(2, 0) == 1 {
